@@ -190,6 +190,14 @@ pub fn obs_sel(s: &Sentence, sel: &str) -> String {
     if want('W') { parts.push(match catch(|| {
         let mut buf = String::new();
         s.write_tokenized_text(&mut buf);
+        // the caller's buffer is overwritten, whatever it held, and a second call gives the same text
+        let mut used = String::from("zz /x\\");
+        s.write_tokenized_text(&mut used);
+        let mut again = buf.clone();
+        s.write_tokenized_text(&mut again);
+        if used != buf || again != buf {
+            buf = format!("!depends-on-buffer:{buf}|{used}|{again}");
+        }
         buf
     }) {
         Ok(x) => match std::str::from_utf8(x.as_bytes()) {
@@ -201,6 +209,11 @@ pub fn obs_sel(s: &Sentence, sel: &str) -> String {
     if want('P') { parts.push(match catch(|| {
         let mut buf = String::new();
         s.write_partial_annotation_text(&mut buf);
+        let mut used = String::from("a-b|c /t");
+        s.write_partial_annotation_text(&mut used);
+        if used != buf {
+            buf = format!("!depends-on-buffer:{buf}|{used}");
+        }
         buf
     }) {
         Ok(x) => format!("P{}", hexs(&x)),
@@ -502,8 +515,13 @@ pub fn run_hist<'p>(
             [k @ ("raw" | "tok" | "part"), h] => {
                 let Some(text) = unhexs(h) else { return "bad-op".into() };
                 let t2 = text.clone();
+                // both forms of `impl Into<Cow<str>>`: an owned String, or (texts of odd byte length) a borrowed &str
+                let borrowed: Option<&'static str> = if *k == "raw" && text.len() % 2 == 1 { Some(Box::leak(text.clone().into_boxed_str())) } else { None };
                 let res = catch(|| match *k {
-                    "raw" => s.update_raw(t2),
+                    "raw" => match borrowed {
+                        Some(b) => s.update_raw(b),
+                        None => s.update_raw(t2),
+                    },
                     "tok" => s.update_tokenized(&t2),
                     _ => s.update_partial_annotation(&t2),
                 });
@@ -548,6 +566,10 @@ pub fn run_hist<'p>(
             [k @ ("Fraw" | "Ftok" | "Fpart"), h] => {
                 let Some(text) = unhexs(h) else { return "bad-op".into() };
                 let res = catch(|| match *k {
+                    "Fraw" if text.len() % 2 == 1 => {
+                        let b: &'static str = Box::leak(text.clone().into_boxed_str());
+                        Sentence::from_raw(b)
+                    }
                     "Fraw" => Sentence::from_raw(text.clone()),
                     "Ftok" => Sentence::from_tokenized(&text),
                     _ => Sentence::from_partial_annotation(&text),
